@@ -90,10 +90,11 @@ for batch in batches:
         break
 # native stress (C18): the Miri crate run natively, real threads at full speed, two feature sets. Not a controlled
 # interleaving - a monitor on seeded programs for what sits below every yield point and outside Miri's reach
-# (wrappers around SIMD FFI); its replay repeats the run.
+# (wrappers around SIMD FFI); its replay repeats the run. std_mmap adds the path adapters: one thread hashes a file whose
+# path is beyond PATH_MAX, the others hash through relative paths.
 if prop == "C18" and not viol:
     rounds = "200" if tier == "thorough" else "60"
-    for name, extra, tdir in [("std", [], "target/native"), ("no_std", ["--no-default-features"], "target/native_nostd")]:
+    for name, extra, tdir in [("std", [], "target/native"), ("no_std", ["--no-default-features"], "target/native_nostd"), ("std_mmap", ["--features", "mmap"], "target/native_mmap")]:
         for k in range(3 if tier == "thorough" else 1):
             args = [str(vseed * 17 + k), "8", "stress", rounds]
             env = dict(os.environ, CARGO_NET_OFFLINE="true")
